@@ -149,9 +149,10 @@ class _Ctx:
         if r == "unknown":
             # z3's non-linear / string heuristics depend on incidental state; retry the same query in
             # fresh, non-incremental solvers (different seeds / the NIA-specific solver) before giving up
-            for attempt in range(4):
+            for attempt in range(5):
                 s2 = z3.SolverFor("QF_NIA") if attempt == 1 and all(_arith_only(a) for a in assertions) else z3.Solver()
-                s2.set("timeout", int(self.timeout_ms if attempt == 3 else min(self.timeout_ms, 4000)))
+                # z3 timeouts are wall-clock: on a heavily loaded machine the last attempt gets four times the configured limit
+                s2.set("timeout", int(4 * self.timeout_ms if attempt == 4 else self.timeout_ms if attempt == 3 else min(self.timeout_ms, 4000)))
                 if attempt:
                     s2.set("random_seed", attempt * 7919)
                 s2.add(*assertions)
